@@ -11,3 +11,5 @@ open Qvnt
 #print axioms C19_can_return
 #print axioms C19_old_code_deadlocks
 #print axioms C19_old_code_lock_ok
+#print axioms C19_trace_sound
+#print axioms C19_trace_prefix
